@@ -81,6 +81,8 @@ class Link(ModelElement):
                 raise TopologyException("When creating new links you must specify the list of interfaces to connect.")
             if any(not isinstance(i, Interface) for i in interfaces):
                 raise TopologyException("Links connect interfaces only.")
+            if len({i.node_id for i in interfaces}) != len(interfaces):
+                raise TopologyException("A link cannot connect an interface to itself.")
             self._interfaces = interfaces
             sliver = NetworkLinkSliver()
             sliver.node_id = self.node_id
